@@ -106,10 +106,15 @@ class DagWalker(Walker):
         if formula in self.memoization:
             return self.memoization[formula]
 
-        res = self.iter_walk(formula, **kwargs)
-
-        if self.invalidate_memoization:
-            self.memoization.clear()
+        try:
+            res = self.iter_walk(formula, **kwargs)
+        except Exception:
+            # Do not leave pending work for the next walk
+            del self.stack[:]
+            raise
+        finally:
+            if self.invalidate_memoization:
+                self.memoization.clear()
         return res
 
     def _get_key(self, formula: FNode, **kwargs) -> FNode:
